@@ -535,6 +535,8 @@ class Interp:
                 za = a.e if isinstance(a, SBool) else z3.BoolVal(bool(a))
                 zb = b.e if isinstance(b, SBool) else z3.BoolVal(bool(b))
                 return SBool(za == zb)
+            if any(isinstance(v, float) and abs(v) == float("inf") for v in (a, b)):
+                return isinstance(a, float) and isinstance(b, float) and a == b  # symbolic reals are finite (A-REAL)
             d = self.to_num(a) - self.to_num(b)
             if d.is_zero():
                 return True
